@@ -4,6 +4,7 @@
 pub mod alloc;
 pub mod driver;
 pub mod evidence;
+pub mod fuzzstage;
 pub mod known;
 pub mod panics;
 pub mod worker;
@@ -208,6 +209,10 @@ pub trait Check: Sync + Send {
     }
     /// Number of generated cases for the tier (total over all shards).
     fn cases(&self, tier: Tier) -> u64;
+    /// libFuzzer executions per process in the coverage-guided stage of the thorough tier.
+    fn fuzz_runs(&self) -> u64 {
+        300_000
+    }
     /// The property, on one generated case.
     fn one_case(&self, data: &[u8], ctx: &mut Ctx) -> Outcome;
     /// Enumerated (exhaustive / fixed family) part, sharded. `emit` is given
